@@ -1,14 +1,25 @@
-use crate::engine::Ctx;
+use crate::engine::{Ctx, Fail};
+
+pub mod c03;
 
 pub fn run(ctx: &Ctx) -> bool {
     match ctx.id.as_str() {
+        "C03" => c03::run(ctx),
         _ => return false,
     }
-    #[allow(unreachable_code)]
     true
 }
 
+fn replay_one(ctx: &Ctx, sub: &str, input: &serde_json::Value) -> Option<Result<(), Fail>> {
+    let _ = sub;
+    Some(match ctx.id.as_str() {
+        "C03" => c03::replay(ctx, input),
+        _ => return None,
+    })
+}
+
 /// Re-execute one saved case (a file written by a failing run) without the generator library.
+/// exit code: 0 = the case passes now, 1 = it (still) violates the property, 2 = cannot replay
 pub fn replay(ctx: &Ctx, path: &str) -> i32 {
     let text = match std::fs::read_to_string(path) {
         Ok(t) => t,
@@ -24,6 +35,20 @@ pub fn replay(ctx: &Ctx, path: &str) -> i32 {
             return 2;
         }
     };
-    let _ = (ctx, v);
-    2
+    let sub = v["sub"].as_str().unwrap_or("").to_string();
+    match replay_one(ctx, &sub, &v["input"]) {
+        None => {
+            eprintln!("property {} has no replay support", ctx.id);
+            2
+        }
+        Some(Ok(())) => {
+            println!("REPLAY-PASS property={} file={}", ctx.id, path);
+            0
+        }
+        Some(Err(f)) => {
+            eprintln!("replay: {} :: {}", f.what, f.detail);
+            println!("VIOLATION property={} replay={}", ctx.id, path);
+            1
+        }
+    }
 }
